@@ -126,7 +126,7 @@ def _writeSetFLPairPots(nr, dr, eampots, pairpots, out, scale_r = True):
         r = float(k) * dr
         val = pp.energy(r)
         if scale_r:
-          val *= r
+          val = val * r   # (not in place: the callable may have returned an object it keeps, e.g. a cached numpy value)
         print(u"% 20.16e" % val, file=workout)
   out.write(workout.getvalue())
 
